@@ -322,6 +322,7 @@ theorem C07_history (v : Callback α α) (ops : List (Op α)) (s : PSet α) (hwf
   | nil => trivial
   | cons op ops ih => exact ⟨⟨hwf, C07_step_spec v s hwf op⟩, ih _ (C07_wf_preserved v s hwf op)⟩
 
+set_option linter.unusedSimpArgs false in
 /-- **C07_history_refines.**  After any sequence of operations the `TraitSet`
 history (members, return values, exception classes, step by step) equals — up
 to the order in which members are stored — the history of a builtin set `b`
@@ -368,6 +369,28 @@ theorem C07_history_refines (v : Callback α α) (ops : List (Op α)) (s b : PSe
       | ok r =>
         simp only [hr, Except.map] at h3
         exact ih o.items r.1 h3.1 hrest
+
+/-- Non-vacuity of `C07_history_refines`: with the identity validator the
+hypotheses hold along a history mixing every kind of operation (the builtin
+starts from a differently ordered representation of the same set). -/
+example :
+    SetAlongRun (fun _ x => .ok x) (fun pre op => SymHyp (fun _ x => .ok x) pre op ∧ GoodHint pre op)
+      ([1, 2, 3] : PSet Int)
+      [.ixor true [2, 5], .pop (some 3), .update [[7], [1, 8]], .iand false [1], .remove 9,
+       .intersectionUpdate [[1, 7, 8], [8, 1]], .clear, .pop none] ∧
+    (TraitSet.run (fun _ x => .ok x) ([1, 2, 3] : PSet Int)
+      [.ixor true [2, 5], .pop (some 3), .update [[7], [1, 8]], .iand false [1], .remove 9,
+       .intersectionUpdate [[1, 7, 8], [8, 1]], .clear, .pop none]).map (·.map SOut.proj) =
+      [.ok ([1, 3, 5], none), .ok ([1, 5], some 3), .ok ([1, 5, 7, 8], none), .error .typeError,
+       .error .keyError, .ok ([1, 8], none), .ok ([], none), .error .keyError] ∧
+    Equiv ([1, 2, 3] : PSet Int) [3, 1, 2] := by
+  refine ⟨⟨⟨?_, trivial⟩, ⟨trivial, .inr ⟨3, rfl, by decide⟩⟩, ⟨trivial, trivial⟩, ⟨trivial, trivial⟩,
+    ⟨trivial, trivial⟩, ⟨trivial, trivial⟩, ⟨trivial, trivial⟩, ⟨trivial, .inl (by decide)⟩, trivial⟩,
+    by decide, fun x => by simp; omega⟩
+  intro ws hws
+  have h : valAll (fun _ x => (.ok x : Except Exc Int)) 0 (symRaw ([1, 2, 3] : PSet Int) [2, 5]) = .ok [5] := by
+    decide
+  rw [h] at hws; cases hws; decide
 
 /-! ### Tie to the source: the mutators that exist are the mutators modelled -/
 
